@@ -282,4 +282,44 @@ theorem c09_resume_complete_full_fails :
   rw [h1] at this
   cases this
 
+/-- `resume_complete`, proved part: if every invocation counted so far is complete (for every run of
+the session, each invocation up to `completed_invocations` has all its data points — which excludes
+exactly the state left by a kill between two flushes of one invocation), then after the resumed
+session every invocation `1 … invocations` of every run has exactly its `iterations` data points:
+the complete ones are kept as they are, the missing ones are executed, none twice. -/
+theorem c09_resume_complete_partial (st : LState) (cfg : List RunCfg) (val : Nat → Nat → Nat → Text) (st' : LState)
+    (hdist : cfg.Pairwise (fun a b => a.run ≠ b.run))
+    (hcomplete : ∀ c ∈ cfg, ∀ i, 1 ≤ i → i ≤ maxInv st.loaded c.run → countInv st.loaded c.run i = c.iterations)
+    (h : afterResume st cfg val = .ok st') :
+    ∀ c ∈ cfg, ∀ i, 1 ≤ i → i ≤ c.invocations → countInv st'.loaded c.run i = c.iterations := by
+  intro c hc i h1 h2
+  obtain ⟨st2, hl, hlo⟩ := c09_load_total st false (resumeDPs val st.loaded cfg)
+  unfold afterResume at h
+  rw [hl] at h; cases h
+  rw [hlo, countInv_append, countInv_map_toDP, cnt_resume val st.loaded i cfg hdist c hc]
+  unfold todo; rw [count_todo]
+  by_cases hm : i ≤ maxInv st.loaded c.run
+  · rw [hcomplete c hc i h1 hm, if_neg (by omega)]; simp
+  · rw [countInv_zero_above _ _ _ (by omega), if_pos ⟨by omega, h2⟩]; simp
+
+/-- non-vacuity: invocation 1 of run 0 complete (2 data points), run 1 not started; the resumed
+session completes both runs -/
+example : ∃ st st', load Variant.repaired [.session, .header, .bench 0 0, .run 0 0 0, mm 1 1 "2" true, mm 1 2 "3" true] = .ok st
+    ∧ (∀ c ∈ [(⟨0, 0, 2, 2⟩ : RunCfg), ⟨1, 1, 1, 2⟩], ∀ i, 1 ≤ i → i ≤ maxInv st.loaded c.run →
+        countInv st.loaded c.run i = c.iterations)
+    ∧ afterResume st [⟨0, 0, 2, 2⟩, ⟨1, 1, 1, 2⟩] val0 = .ok st'
+    ∧ countInv st'.loaded 0 1 = 2 ∧ countInv st'.loaded 0 2 = 2 ∧ countInv st'.loaded 1 1 = 2 := by
+  refine ⟨_, _, rfl, ?_, rfl, by decide, by decide, by decide⟩
+  intro c hc i h1 h2
+  simp only [List.mem_cons, List.not_mem_nil, or_false] at hc
+  rcases hc with rfl | rfl
+  · have : maxInv [(⟨0, 1, [(1, totalName, "2".toList)]⟩ : DP), ⟨0, 1, [(2, totalName, "3".toList)]⟩] 0 = 1 := by decide
+    simp only [mm] at h2
+    have hi : i = 1 := by
+      have h2' : i ≤ 1 := by simpa [LState.init, load, loadFrom, step, stepMeas, atComment, Variant.repaired, maxInv, fresh] using h2
+      omega
+    subst hi; decide
+  · have h2' : i ≤ 0 := by simpa [LState.init, load, loadFrom, step, stepMeas, atComment, Variant.repaired, maxInv, fresh, mm] using h2
+    omega
+
 end RB.Loader
